@@ -128,6 +128,15 @@ def c19_b(ctx: Ctx):
             out.append(ctx.ok(R, f, c, "a non-existent path raises LookupError before any id is extracted from it"))
         else:
             out.append(ctx.viol(R, f, c, "the path is not checked for existence (as given) before an id is extracted from it: a non-existent path below an existing job directory resolves to that job"))
+    # the job directory is located by the *position* of the last match, never by searching the id text again
+    ts = [c for c in body_nodes(f) if isinstance(c, ast.Call) and isinstance(c.func, ast.Attribute) and c.func.attr in ("partition", "split", "find", "index", "rpartition", "rsplit", "rfind", "rindex")
+          and c.args and "job_id" in names_in(c.args[0])]
+    first = [c for c in ts if c.func.attr in ("partition", "split", "find", "index")]
+    if first:
+        out.append(ctx.viol(R, f, first[0], f"the job directory is derived with {canon(first[0])[:40]}, i.e. from the first occurrence of the id text: when a nested project holds a job with the "
+                            "same id as its enclosing job ('<ws>/X/workspace/X') the outer job and project are returned"))
+    elif ts:
+        out.append(ctx.inc(R, f, ts[0], f"job directory derived with {canon(ts[0])[:40]}"))
     absn = [n for n in body_nodes(f) if isinstance(n, ast.Call) and common.ext_name(ctx, f, n) == "os.path.abspath"]
     if absn:
         out.append(ctx.ok(R, f, absn[0], "the query path is made absolute (no link resolution)"))
@@ -152,6 +161,9 @@ def c19_c(ctx: Ctx):
                                 "that holds the link target, not to B"))
         else:
             out.append(ctx.ok(R, f, f.node, "no symbolic-link resolution in discovery"))
+    from .lints import no_memoisation
+    out += no_memoisation(ctx, R, [LOC, GP, GJ, "signac._config:_get_project_config_fn", "signac._config:_raise_if_older_schema"],
+                          "which project owns a path depends on the current file system; a remembered answer goes stale as soon as a nearer project is initialised (init_project would then return the outer project)")
     f = ctx.fn(LOC)
     loops = [n for n in f.node.body if isinstance(n, ast.While)]
     if loops:
